@@ -10,7 +10,7 @@
 # in_build_gen run and the theorems over msteps_gen apply to what the engine did.  Trusted glue: the scenario interpreter, acc_begin /
 # acc_finish (ImplAccept.v: the beginning and the end of ibuild_gen, not proved equal to it), irestart, dump_touch, value printing.
 # Oracle O (independent of the model): the per-task protocol automaton enginelib.protocol_check on the implementation trace.
-import os, random, time
+import os, random, time, atexit
 import vlib, enginelib as E, enginechk as K
 
 TMP = os.path.join(vlib.WORK, "tmp", "implacc")
@@ -29,6 +29,7 @@ def acc_model(sess):
     if it is None:
         it = vlib.Interactive(vlib.model_bin("implacc"))
         sess.acc = it
+        atexit.register(it.close)          # impl.Sess.close() does not know about this process
     return it
 
 
